@@ -62,12 +62,11 @@ Theorem coefficients_elementary : forall S x,
   m_ok S OTanh x /\ (cos x <> 0 -> m_ok S OTan x) /\ (0 < x -> m_ok S OLog x) /\ (-1 < x -> m_ok S OLog1p x) /\
   (forall y, 0 < x -> m_ok S (OPowC y) x).
 Proof.
-  intros S x. repeat split; try apply neg_ok; try apply sin_ok; try apply cos_ok; try apply sinh_ok;
-    try apply cosh_ok; try apply exp_ok; try apply tanh_ok.
-  - apply (proj1 (tan_ok S x H)). - apply (proj2 (tan_ok S x H)).
-  - apply (proj1 (log_ok S x H)). - apply (proj2 (log_ok S x H)).
-  - apply (proj1 (log1p_ok S x H)). - apply (proj2 (log1p_ok S x H)).
-  - apply (proj1 (powc_ok S y x H)). - apply (proj2 (powc_ok S y x H)).
+  intros S x.
+  split; [apply neg_ok|]. split; [apply sin_ok|]. split; [apply cos_ok|]. split; [apply sinh_ok|].
+  split; [apply cosh_ok|]. split; [apply exp_ok|]. split; [apply tanh_ok|].
+  split; [intro H; apply tan_ok; exact H|]. split; [intro H; apply log_ok; exact H|].
+  split; [intro H; apply log1p_ok; exact H|]. intros y H. apply powc_ok. exact H.
 Qed.
 
 Theorem coefficients_dyadic : forall S x y,
